@@ -132,6 +132,8 @@ class Engine:
         self.src_cache = {}
         self.functions_encoded = set()
         self.inputs = {}           # name -> (kind, size, z3 term)
+        self.hash_apps = []        # (result term, canonical SBytes argument): lets a model be concretised with REAL hashes
+        self.lifts = []            # (atom term, n, bit-vector term)
         self.lenf = z3.Function("len", U, z3.IntSort())
         self.unwind = 64
         self.max_depth = 60
@@ -161,30 +163,58 @@ class Engine:
         return SBool(t)
 
     def concretize(self, model):
-        """model -> {input name: python value}. Atoms get distinct byte strings per distinct U element
-        (a constant's own bytes when the model identifies the atom with that constant)."""
-        out, byelem = {}, {}
-        consts = {}
-        for b, t in self.const_atoms.items():
-            consts[str(model.eval(t, model_completion=True))] = b
+        """model -> {input name: python value}.  Atoms of the uninterpreted sort are given byte strings consistent with
+        the model: a constant's own bytes, the REAL keccak of the concretised pre-image when the model identifies the atom
+        with a hash result (so that e.g. "this stored value equals the hash of that node" replays natively), the bytes of a
+        lifted bit-vector, otherwise a filler that is distinct per distinct element."""
+        from eth_hash.auto import keccak as real_keccak
+
+        def el(t):
+            return str(model.eval(t, model_completion=True))
+        consts = {el(t): b for b, t in self.const_atoms.items()}
+        lifts = {}
+        for (r, n, bv) in self.lifts:
+            lifts.setdefault(el(r), (n, bv))
+        hashes = {}
+        for (r, sb) in self.hash_apps:
+            hashes.setdefault(el(r), sb)
+        memo, fillers = {}, {}
+
+        def filler(key, n):
+            if (key, n) not in fillers:
+                i = len(fillers)
+                fillers[(key, n)] = (bytes([0xE1 + i % 30]) * n) if n else b""
+            return fillers[(key, n)]
+
+        def resolve(key, n, depth=0):
+            if (key, n) in memo:
+                return memo[(key, n)]
+            out = None
+            if key in consts and len(consts[key]) == n:
+                out = consts[key]
+            elif key in lifts and lifts[key][0] == n:
+                out = int(model.eval(lifts[key][1], model_completion=True).as_long()).to_bytes(n, "big")
+            elif key in hashes and n == 32 and depth < 40:
+                pre = b""
+                for c in hashes[key].ch:
+                    pre += resolve(el(c[2]), c[1], depth + 1)
+                out = real_keccak(pre)
+            if out is None:
+                out = filler(key, n)
+            memo[(key, n)] = out
+            return out
+        res = {}
         for name, (kind, n, t) in self.inputs.items():
             v = model.eval(t, model_completion=True)
             if kind == "bv":
-                out[name] = int(v.as_long()).to_bytes(n, "big")
+                res[name] = int(v.as_long()).to_bytes(n, "big")
             elif kind == "int":
-                out[name] = int(v.as_long())
+                res[name] = int(v.as_long())
             elif kind == "bool":
-                out[name] = bool(z3.is_true(v))
+                res[name] = bool(z3.is_true(v))
             else:
-                key = str(v)
-                if key in consts and len(consts[key]) == n:
-                    out[name] = consts[key]
-                else:
-                    if (key, n) not in byelem:
-                        i = len(byelem)
-                        byelem[(key, n)] = (bytes([0xE1 + i % 30]) * n) if n else b""
-                    out[name] = byelem[(key, n)]
-        return out
+                res[name] = resolve(str(v), n)
+        return res
 
     # ---- atoms / hashing -------------------------------------------------------------
     def const_atom(self, b):
@@ -208,7 +238,8 @@ class Engine:
         if n not in self._lift:
             self._lift[n] = (z3.Function(f"lift{n}", z3.BitVecSort(8 * n), U), z3.Function(f"unlift{n}", U, z3.BitVecSort(8 * n)))
         f, g = self._lift[n]
-        r = f(t); self.solver.add(g(r) == t); self.solver.add(self.lenf(r) == n); return r
+        r = f(t); self.solver.add(g(r) == t); self.solver.add(self.lenf(r) == n)
+        self.lifts.append((r, n, t)); return r
 
     def canon(self, sb):
         out, run = [], []
@@ -248,6 +279,7 @@ class Engine:
             self.solver.add(inv[i](r) == a)
         self.hash_axioms += 1 + len(args)
         self.stats["keccak"] += 1
+        self.hash_apps.append((r, sb))
         return SBytes([("a", 32, r)])
 
     def rank(self, t):
